@@ -1,7 +1,7 @@
 #!/usr/bin/env python3
 """Systematic sensitivity run: simple syntactic mutants of one source file of /repo.
 
-  tools/mutate.py <path relative to /repo> <CHECK> [<CHECK> ...] [--max N] [--out FILE] [--start K]
+  tools/mutate.py <path relative to /repo> <CHECK> [<CHECK> ...] [--max N] [--out FILE] [--start K] [--lines L1,L2,...]
 
 For every mutant that still compiles and passes the repository's own tests, the named checks are
 run (quick tier, in order, stopping at the first that reports a violation) against a scratch
@@ -74,7 +74,7 @@ def run(cmd, cwd, timeout):
 def main():
     args = sys.argv[1:]
     path = args[0]
-    checks, maxn, outf, start = [], 10**9, None, 0
+    checks, maxn, outf, start, only = [], 10**9, None, 0, None
     it = iter(args[1:])
     for a in it:
         if a == "--max":
@@ -83,6 +83,8 @@ def main():
             outf = next(it)
         elif a == "--start":
             start = int(next(it))
+        elif a == "--lines":
+            only = set(int(x) for x in next(it).split(","))
         else:
             checks.append(a)
     outf = outf or "/verif/mutants/survivors-%s.txt" % path.replace("/", "_")
@@ -100,6 +102,8 @@ def main():
             if k not in seen:
                 seen.add(k)
                 uniq.append(m)
+        if only:
+            uniq = [m for m in uniq if m[0] + 1 in only]
         muts = uniq[start:start + maxn]
         stats = dict(total=len(muts), nocompile=0, repo_tests_kill=0, killed=0, survived=0)
         log = open(outf, "a")
@@ -118,18 +122,27 @@ def main():
             if rc != 0:
                 stats["repo_tests_kill"] += 1
                 continue
-            killer = None
+            killer, odd = None, []
             for c in checks:
                 env = dict(ENV, VERIF_REPO=wt, VERIF_REPLAY_DIR=rd)
+                # own process group, so that a timeout takes the test binaries with it
+                p = subprocess.Popen(["/verif/check", c, "--tier", "quick", "--no-evidence"], env=env, stdout=subprocess.PIPE, stderr=subprocess.STDOUT, start_new_session=True)
                 try:
-                    p = subprocess.run(["/verif/check", c, "--tier", "quick", "--no-evidence"], env=env, stdout=subprocess.PIPE, stderr=subprocess.STDOUT, timeout=1500)
+                    p.communicate(timeout=1500)
                     rc2 = p.returncode
                 except subprocess.TimeoutExpired:
+                    os.killpg(p.pid, 9)
+                    p.communicate()
                     rc2 = -9
                 if rc2 == 1:
                     killer = c
                     break
-            if killer:
+                if rc2 != 0:
+                    odd.append("%s rc=%s" % (c, rc2))
+            if killer is None and odd:
+                stats["inconclusive"] = stats.get("inconclusive", 0) + 1
+                log.write("INCONCLUSIVE (%s) | line %d | %s | - %s | + %s\n" % (", ".join(odd), i + 1, kind, old.strip()[:140], new.strip()[:140]))
+            elif killer:
                 stats["killed"] += 1
                 log.write("killed by %s | line %d | %s | %s\n" % (killer, i + 1, kind, new.strip()[:140]))
             else:
